@@ -21,5 +21,5 @@ ASSUMPTIONS = [
 META = {
     "technique": "Coq proof over Q (sum/max/min algebra by induction over the list of battery groups: max(Σa, Σb) <= Σ max(a,b), sum over flat_map = sum of sums) + T-tie of the zero tolerance + differential correspondence of PowerBoundsCalculator.calculate, BatteryManager._get_components_data/_get_bounds/_check_request, SystemBounds.__contains__ and the distribution algorithm's min_power (all run on exact rationals) vs the model evaluated in Coq + property oracle on the implementation's outputs",
     "level_text": "Machine-checked theorems (closed under the global context) about a Gallina model of both code paths as functions of the same list of battery groups: the advertised inclusion bounds equal the enforced ones, the enforced exclusion zone lies inside the advertised one, every power inside the advertised inclusion bounds and outside (or on the edge of) the advertised exclusion zone is accepted by _check_request in both adjust_power modes, and such a power is at least the sum of the groups' minimum powers in its direction. The grouping (any list of groups, overlapping or not) is a parameter. The model is tied to the code by running the real calculator (real constructor and mapping code on a stub component graph) and the real manager methods on exact rationals for thousands of generated topologies / data sets with probes on, just inside and just outside every advertised bound, comparing with the model evaluated inside Coq; the grouping each side used is recorded from the run and compared; the property is also judged directly on the implementation's outputs.",
-    "level_note": "Trusted: Coq kernel + vm_compute, tools/translate.py (one constant), the harness and its generator, the exact-rational class. ALL theorems are over Q: the algorithm and the order of a floating-point summation are outside the model. In binary64 'identical inclusion bounds' additionally needs both code paths to add the same terms the same way; that was not the case (naive += vs the builtin compensated sum(), finding C17-float-summation-ulp, fixed in /repo c1935b2) and is now checked, not proved, by the float-only stream `floatsum` (both real code paths on binary64, non-dyadic bounds, >= 3 battery sets: bit-identical inclusion bounds and acceptance of requests exactly on the advertised bounds; witness in corpus/C17/floatsum_witness.json). If a future CPython or a different set iteration order made the two sides add in different orders, a one-ulp difference could reappear; the stream would report it. The main stream's float run is compared exactly on dyadic data (float arithmetic exact) and within 1e-6 otherwise. The distribution itself (that the accepted power is then distributed without entering an exclusion zone) is C01/C02's subject; here only |p| >= sum of min_power is shown. Incomplete data is covered for the calculator only (the manager skips groups without data).",
+    "level_note": "Trusted: Coq kernel + vm_compute, tools/translate.py (one constant), the harness and its generator, the exact-rational class. ALL theorems are over Q: the algorithm and the order of a floating-point summation are outside the model. In binary64 'identical inclusion bounds' additionally needs both code paths to add the same terms the same way; that was not the case (naive += vs the builtin compensated sum(), finding C17-float-summation-ulp, fixed in /repo c1935b2) and is now checked, not proved, by the float-only stream `floatsum` (both real code paths on binary64, non-dyadic bounds, >= 3 battery sets: bit-identical inclusion bounds and acceptance of requests exactly on the advertised bounds; witness in corpus/C17/floatsum_witness.json). If a future CPython or a different set iteration order made the two sides add in different orders, a one-ulp difference could reappear; the stream would report it. The bounds as STREAMED (BatteryPool._system_power_bounds: SendOnUpdate + PowerBoundsCalculator + battery/inverter fetchers behind a real BatteryPoolReferenceStore) are not modelled as a transition system; the stream `stream` runs that real pipeline and a BatteryManager's real data path (_create_channels -> LatestValueCache, _get_components_data, _get_bounds, _check_request; the status tracker is a stub answering the same working set the harness sends on the pool's status channel) off the same fake API data on async_solipsism virtual time, with scripts of status changes / bursts and bounds changes on working batteries, NOT-working batteries of a working shared-inverter set, idle sets and inverters; after each step (6 virtual seconds settled) the latest streamed bounds must equal the model's `advertised` on the snapshot, agree with what the manager enforces (inclusion equal, exclusion dominated) and every probe inside them must be accepted. Transients between a change and its propagation are not judged. The main stream's float run is compared exactly on dyadic data (float arithmetic exact) and within 1e-6 otherwise. The distribution itself (that the accepted power is then distributed without entering an exclusion zone) is C01/C02's subject; here only |p| >= sum of min_power is shown. Incomplete data is covered for the calculator only (the manager skips groups without data).",
 }
